@@ -52,6 +52,8 @@ class ConcMem:
         return int.from_bytes(b, "little" if endian == "le" else "big", signed=signed)
 
     def inflate(self, off, ln, wbits, maxlen, idx):
+        if self._inflate is None:
+            return 0  # the oracle evaluates every branch eagerly; this value is only selected for compressed entries
         return self._inflate(off, ln, wbits, maxlen, idx)
 
 
